@@ -33,6 +33,26 @@ CHECKS["C13"] = dict(
          "bytes consumed = produced.",
     ref="DESIGN.md §3 C13")
 
+CHECKS["C18"] = dict(
+    technique="static analysis: call-result liveness on clang CFG, must-pass-through and dominance of validation guards",
+    text="Structural clauses: every stdio result in file_writer.c/file_reader.c is consumed on every path; "
+         "after the trailing magic every status-OK path of carquet_writer_close passes a checked "
+         "fflush/fclose and their failure is folded into the returned status; in the three open paths the "
+         "minimum-size, trailing-magic and footer-length guards (with error exits) dominate "
+         "parquet_parse_file_metadata and build_schema runs only after the parse status was tested; abort "
+         "closes then removes. Not decided: that every proper prefix is rejected (depends on byte values).",
+    ref="DESIGN.md §3 C18")
+CHECKS["C19"] = dict(
+    technique="static analysis: NULL-test-before-use and status liveness on clang CFG with call-graph may-allocate summaries",
+    text="Structural clauses over all of src/**: every allocator result is NULL-tested on every path before it "
+         "is dereferenced/indexed/passed to a memory routine or to a callee that dereferences that parameter; "
+         "the status of every callee that may allocate is consumed on every path (returned, tested, passed on, "
+         "or stored and read before it dies); functions initialising a Thrift codec test its sticky error "
+         "before returning OK. 14 recorded known findings (dictionary encoders, page-index serializers). Not "
+         "decided: success results when a NULL is tolerated rather than dereferenced; leak freedom on error "
+         "paths beyond the ownership rules.",
+    ref="DESIGN.md §3 C19")
+
 NOT_APPLICABLE = {
     "C10": "conformance of Snappy/LZ4 streams to the external grammars is a statement about emitted/accepted byte values; no structural clause beyond the decoder bounds already decided under C08 (DESIGN.md §6)",
     "C12": "conformance of encoder output to the Parquet encoding specification needs an independent codec as value oracle; no sound structural clause (DESIGN.md §6)",
